@@ -1191,6 +1191,8 @@ class Fn:
             path = c.get('rpath') or c['path']
             gen = c['path']
             out = ('call', path, args, gen, c.get('full', ''))
+            if path == 'anyhow::__private::not' and len(args) == 1:
+                return ('un', 'Not', args[0])       # `ensure!(c, ..)` is `if !c { bail!(..) }`
             if path in _uncalled(self.prog) and depth < 200:
                 # a constructor / builder the pinned code never calls: the value it constructs (see ctor_value)
                 v = ctor_value(self.prog, out)
